@@ -67,6 +67,9 @@ func c02Layouts(r gen.R, rec *evid.Recorder, tree *ir.Node, n int) []string {
 	var srcs []string
 	for i := 0; i < n; i++ {
 		opt := layout.Options{Random: true, ASI: true, Comments: true, CRLF: r.Intn(4, "crlf") == 0}
+		if !opt.CRLF && r.Intn(8, "cr") == 0 {
+			opt.CR = true // a lone carriage return is a line terminator too
+		}
 		if r.Bool("redundant") {
 			opt.Redundant = 150
 		}
